@@ -79,6 +79,15 @@ def noisy_case(draw):
     base["model"] = {"refl": draw(dist_strategy("refl")), "loss": draw(dist_strategy("loss")),
                      "phase": draw(dist_strategy("phase"))}
     base["seed"] = draw(st.integers(0, 2 ** 31 - 1))
+    # optionally the error model object has a history: configured differently and used before
+    if draw(st.booleans()):
+        base["prior"] = {"refl": draw(dist_strategy("refl")), "loss": draw(dist_strategy("loss")),
+                         "phase": draw(dist_strategy("phase"))}
+        perm = list(draw(st.permutations(["refl", "loss", "phase"])))
+        base["order"] = perm[:draw(st.integers(1, 3))]        # only these are re-assigned after the first use
+        for key in ("refl", "loss", "phase"):
+            if key not in base["order"]:
+                base["model"][key] = base["prior"][key]
     return base
 
 
@@ -156,9 +165,20 @@ def run_noisy(case):
     c = make_circuit(case)
     em = interferometers.ErrorModel()
     bounds = {}
-    for key, attr in (("refl", "bs_reflectivity"), ("loss", "loss"), ("phase", "phase_offset")):
-        d, b = make_dist(case["model"][key])
-        setattr(em, attr, d)
+    attrs = {"refl": "bs_reflectivity", "loss": "loss", "phase": "phase_offset"}
+    order = ["refl", "loss", "phase"]
+    if case.get("prior"):
+        for key in order:
+            setattr(em, attrs[key], make_dist(case["prior"][key])[0])
+        call("Reck(prior).map", interferometers.Reck(em).map, c, seed=case["seed"] % 97)
+        order = case["order"]
+    for key in ("refl", "loss", "phase"):
+        attr = attrs[key]
+        if key in order:
+            d, b = make_dist(case["model"][key])
+            setattr(em, attr, d)
+        else:
+            d, b = getattr(em, attr), make_dist(case["model"][key])[1]
         bounds[key] = b
         # direct draws stay inside the declared bounds, and are reproducible
         if hasattr(d, "set_random_seed"):
@@ -183,6 +203,17 @@ def run_noisy(case):
            [(l.mode, l.loss) for l in loss2]
     if sig1 != sig2:
         raise Violation("the same seed gave two different mapped circuits", key="seed-not-reproducible")
+    if case.get("prior"):
+        em_f = interferometers.ErrorModel()
+        for key in ("refl", "loss", "phase"):
+            setattr(em_f, attrs[key], make_dist(case["model"][key])[0])
+        m3 = call("Reck(fresh em).map", interferometers.Reck(em_f).map, c, seed=case["seed"])
+        ps3, bs3, loss3, _ = components(m3)
+        sig3 = [(p.mode, p.phi) for p in ps3] + [(b.mode_1, b.mode_2, b.reflectivity) for b in bs3] + \
+               [(l.mode, l.loss) for l in loss3]
+        if sig3 != sig1:
+            raise Violation("a re-configured error model and a fresh one with the same distributions give different "
+                            "circuits for the same seed", key="seed-not-reproducible")
     if other:
         raise Violation("unexpected component in mapped circuit", key="unexpected-component")
     for b in bs1:
@@ -217,6 +248,8 @@ def run_noisy(case):
         raise Violation("noisy mapped heralds differ from original", key="heralds-mismatch")
     nonconst = [k for k in ("refl", "loss", "phase") if case["model"][k][0] != "constant"]
     labels = [f"{k}:{case['model'][k][0]}" for k in ("refl", "loss", "phase")]
+    if case.get("prior"):
+        labels.append("error-model-reconfigured-after-use")
     return {"nontrivial": bool(nonconst), "labels": labels}
 
 
